@@ -91,7 +91,15 @@ def Types.ofTable (tbl : List (String × String)) : Option Types :=
 
 /-- A Python value as it can occur in the `variables` dict of a generated subscription method:
     JSON scalars, `UNSET`, a pydantic model instance (represented by what pydantic's
-    `model_dump(by_alias=True, exclude_unset=True)` returns for it), lists and dicts of those. -/
+    `model_dump(by_alias=True, exclude_unset=True)` returns for it), lists and dicts of those.
+
+    `foreign` is a Python object that is not one of `json`'s native types - a `datetime`, `Decimal`,
+    `UUID` (custom scalars whose `type` pydantic knows, README "type supported by pydantic"), an
+    `Upload`: `json.dumps` without `default=` raises `TypeError` on it.  It carries what
+    `pydantic_core.to_jsonable_python` (the `default=` of the HTTP path, `_execute_json`) makes of
+    it, `none` when that refuses too (`Upload`).
+    `modelPy` is a model instance whose python-mode dump is not plain JSON (a field holds a `foreign`
+    value): `model_dump` returns this dict, `foreign` leaves included. -/
 inductive PV where
   | null
   | bool (b : Bool)
@@ -101,6 +109,8 @@ inductive PV where
   | model (dump : J)
   | list (xs : List PV)
   | dict (kvs : List (String × PV))
+  | foreign (jsonable : Option J)
+  | modelPy (dump : List (String × PV))
   deriving Repr, Inhabited
 
 mutual
@@ -113,6 +123,8 @@ mutual
     | .str s => some (.str s)
     | .unset => none
     | .model _ => none
+    | .foreign _ => none
+    | .modelPy _ => none
     | .list xs => (rawJsonList xs).map .arr
     | .dict kvs => (rawJsonKvs kvs).map .obj
   def rawJsonList : List PV → Option (List J)
@@ -140,6 +152,8 @@ mutual
     | .num m e => some (.num m e)
     | .str s => some (.str s)
     | .unset => none
+    | .foreign _ => none
+    | .modelPy kvs => (rawJsonKvs kvs).map .obj   -- `model_dump(...)` returned this dict; `json.dumps` takes it as it is
     | .dict kvs => (rawJsonKvs kvs).map .obj
   def convJsonList : List PV → Option (List J)
     | [] => some []
@@ -418,6 +432,26 @@ def runT (t : Types) (subprotocol : String) (cfg : Cfg) (vars : Option (List (St
       | .retClose =>
         let r := afterAck t cfg vars true fs
         ⟨pre ++ .recv f :: .close :: r.1, r.2⟩
+
+/-- Everything inside `async with ws_connect(...) as websocket:` (the part of `runT` after the
+    socket was opened; `runT_session` in Proofs/WsClient.lean). -/
+def session (t : Types) (cfg : Cfg) (vars : Option (List (String × PV))) (frames : List Frame) :
+    List Ev × Outcome :=
+  let pre := [Ev.send (.connectionInit (initOf cfg))]
+  match frames with
+  | [] => (pre, .internal "ConnectionClosedOK")
+  | f :: fs =>
+    match handle t (some t.ack) f with
+    | .raise o => (pre ++ [.recv f], o)
+    | .ret _ =>
+      let r := afterAck t cfg vars false fs
+      (pre ++ .recv f :: r.1, r.2)
+    | .retPong =>
+      let r := afterAck t cfg vars false fs
+      (pre ++ .recv f :: .send .pong :: r.1, r.2)
+    | .retClose =>
+      let r := afterAck t cfg vars true fs
+      (pre ++ .recv f :: .close :: r.1, r.2)
 
 /-- The model of `AsyncBaseClient.execute_ws` against the extracted tables. -/
 def run (tbl : List (String × String)) (subprotocol : String) (cfg : Cfg)
